@@ -162,13 +162,35 @@ def prove(pid, timeout=1500):
     return res
 
 
-def forbidden_scan():
-    """no Admitted/admit/Axiom/Parameter/... anywhere in the development"""
+def coq_closure(pid):
+    """the .v files Properties_<pid>.v and Extract_<pid>.v depend on (inside the development)"""
+    todo = [COQ / f'Properties_{pid}.v', COQ / f'Extract_{pid}.v']
+    seen = []
+    while todo:
+        f = todo.pop()
+        if f in seen or not f.exists():
+            continue
+        seen.append(f)
+        txt = re.sub(r'\(\*[\s\S]*?\*\)', '', f.read_text())
+        for stmt in re.findall(r'(?:Require|From\s+Celma\S*\s+Require)[^.]*?(?:Import|Export)?\s+([^\n]*?)\.\s', txt):
+            pass
+        for m in re.finditer(r'Celma((?:\.[A-Za-z0-9_]+)+)', txt):
+            parts = m.group(1).strip('.').split('.')
+            cand = COQ.joinpath(*parts).with_suffix('.v')
+            if cand.exists():
+                todo.append(cand)
+    return seen
+
+
+def forbidden_scan(pid=None):
+    """no Admitted/admit/Axiom/Parameter/... in the files the property depends on
+    (pid None: anywhere in the development)"""
     bad = []
     pat = re.compile(r'\b(Admitted|admit|Axiom|Axioms|Parameter|Parameters|Conjecture|Admit Obligations|'
                      r'bypass_check|Unset Guard Checking|Unset Positivity Checking|Unset Universe Checking|'
                      r'type-in-type|impredicative-set)\b')
-    for p in COQ.rglob('*.v'):
+    files = coq_closure(pid) if pid else list(COQ.rglob('*.v'))
+    for p in files:
         txt = re.sub(r'\(\*[\s\S]*?\*\)', '', p.read_text())
         for i, line in enumerate(txt.splitlines(), 1):
             if pat.search(line):
@@ -468,7 +490,7 @@ def run_check(P, tier, seed, replay=None):
             log(f'[{pid}] translator failed: {ex}')
 
     # 2. prove
-    bad = forbidden_scan()
+    bad = forbidden_scan(pid)
     pr = prove(pid, timeout=getattr(P, 'PROVE_TIMEOUT', 1500))
     if bad:
         pr['ok'] = False
